@@ -254,7 +254,7 @@ func buildReverseSearchers(
 
 	case UseReverseSuffix:
 		suffixLiterals := extractor.ExtractSuffixes(re)
-		searcher, err := NewReverseSuffixSearcher(nfaEngine, suffixLiterals, dfaConfig, isDotStarLiteralSuffix(re))
+		searcher, err := NewReverseSuffixSearcher(nfaEngine, suffixLiterals, dfaConfig, isDotStarLiteralSuffix(re) && suffixesCoverTail(re, suffixLiterals))
 		if err != nil {
 			result.finalStrategy = UseDFA
 		} else {
@@ -263,7 +263,7 @@ func buildReverseSearchers(
 
 	case UseReverseSuffixSet:
 		suffixLiterals := extractor.ExtractSuffixes(re)
-		searcher, err := NewReverseSuffixSetSearcher(nfaEngine, suffixLiterals, dfaConfig, isDotStarLiteralSuffix(re))
+		searcher, err := NewReverseSuffixSetSearcher(nfaEngine, suffixLiterals, dfaConfig, isDotStarLiteralSuffix(re) && suffixesCoverTail(re, suffixLiterals))
 		if err != nil {
 			result.finalStrategy = UseBoth
 		} else {
